@@ -5,12 +5,14 @@
    a whole-frame call that runs out of input has written a prefix d1 of the rows, and repeating it on ANY longer input v' >= v gives exactly the
    result of a single call on v' with the rows d1 ++ d2 - by induction over a growth schedule this is `resuming completes identically`.  At the
    byte level the stream machine consumes nothing on an empty buffer and accumulates partial 4-byte fields (C04_field_piece_is_only_accumulated)
-   and partial chunk bodies (C04_body_cut_partial) without events.  NOT PROVED: the composition down to bytes; next_frame_info; that no format error
-   is reported on a prefix (needs the inflater's prefix-stability contract).  These are decided by the harness on every run (every cut point,
-   growth schedules +1 / random / all-at-once, six retried calls). *)
-From Coq Require Import List Arith Bool Lia.
+   and partial chunk bodies (C04_body_cut_partial) without events.  AT THE BYTE LEVEL (stream machine, Proofs/StreamWhole.v, premise: the prefix-determinacy contract of the external inflater): a stream that decodes without
+   an error reports no error on ANY of its prefixes - the run ends for lack of input, ready to go on (C05_prefix_never_fails) - and however the input
+   then grows (any list of increments) the outcome is that of decoding the complete input in one go (C05_resuming_completes_identically).
+   NOT PROVED: the link between the two levels (Reader rows over the machine's image bytes) and next_frame_info; decided by the harness on every run
+   (every cut point, growth schedules +1 / random / all-at-once, six retried calls). *)
+From Coq Require Import List Arith Bool Lia ZArith.
 Import ListNotations.
-From PngV Require Import Model.Reader Proofs.ReaderProofs.
+From PngV Require Import Base.Bytes Model.Stream Model.StreamRun Gen.GenStream Model.Reader Proofs.ReaderProofs Proofs.StreamSplit Proofs.StreamWhole.
 
 (* row calls *)
 Theorem C05_row_call_out_of_input_changes_nothing :
@@ -27,7 +29,7 @@ Proof. exact finish_is_resumable. Qed.
 (* next_frame in the middle of a frame or at its start *)
 Theorem C05_frame_call_is_resumable :
   forall (im : image) (v v' : nat) (s s1 : rstate) (d1 : delivered),
-       v <= v' ->
+       (v <= v')%nat ->
        advancing s = false ->
        step im v s OFrame = (s1, REofR, d1) ->
        step im v' s OFrame = (let '(s2, r, d2) := step im v' s1 OFrame in (s2, r, d1 ++ d2)).
@@ -36,18 +38,59 @@ Proof. exact frame_call_is_resumable. Qed.
 (* the rows a call could write on a prefix are a prefix of those it writes on a longer input *)
 Theorem C05_rows_visible_earlier_stay_visible :
   forall (im : image) (v v' k : nat),
-       v <= v' ->
+       (v <= v')%nat ->
        forall (n j : nat) (d : delivered) (jstop : nat),
        take_rows im v k j n = (d, Some jstop) ->
        take_rows im v' k j n = (let '(d2, st) := take_rows im v' k jstop (n - (jstop - j)) in (d ++ d2, st)).
 Proof. exact take_rows_resume. Qed.
 
+(* bytes: a stream that decodes without an error reports no error on any prefix (the run over the prefix ends for lack of input, or at IEND) *)
+Theorem C05_prefix_never_fails :
+  forall (zinf : bool -> list Z -> list Z * dstatus) (zall : list Z -> option (list Z))
+         (utf8_valid : list Z -> bool),
+       zinf_contract zinf ->
+       forall (o : options) (limit : Z) (p q : list Z),
+       bytes_ok p ->
+       bytes_ok q ->
+       ~ is_failure (snd (feed zinf zall utf8_valid (init_state o limit) [p ++ q])) ->
+       ~ is_failure (snd (feed zinf zall utf8_valid (init_state o limit) [p])).
+Proof. exact prefix_never_fails. Qed.
+
+(* bytes: however the input grows, the outcome (events, image bytes, metadata, end) is that of decoding the complete input in one go *)
+Theorem C05_resuming_completes_identically :
+  forall (zinf : bool -> list Z -> list Z * dstatus) (zall : list Z -> option (list Z))
+         (utf8_valid : list Z -> bool),
+       zinf_contract zinf ->
+       forall (o : options) (limit : Z) (increments : list (list Z)),
+       Forall bytes_ok increments ->
+       feed_obs (feed zinf zall utf8_valid (init_state o limit) increments) =
+       feed_obs (feed zinf zall utf8_valid (init_state o limit) [concat increments]).
+Proof. exact resuming_completes_identically. Qed.
+
+Local Open Scope nat_scope.
 (* non-vacuity: frame of 4 rows, only 2 visible: next_frame writes 2 rows and reports UnexpectedEof; repeated with everything visible it writes the other 2 *)
 Example C05_nonvacuous :
   let im := mk_image [4] 1 (fun _ => true) in
   snd (run im (reader_init im) [(OFrame, 2); (OFrame, 4)]) = [(REofR, [(0,0); (0,1)]); (RFrame 0, [(0,2); (0,3)])].
 Proof. vm_compute. reflexivity. Qed.
+
+Local Open Scope Z_scope.
+(* non-vacuity at the byte level: the 64-byte stream of C04's demonstration decodes to its IEND; cut after 30 bytes the run ends for lack of input
+   (no error), and fed the rest it reaches the same end *)
+Definition c05_demo_bytes : list Z :=
+  [137;80;78;71;13;10;26;10; 0;0;0;13; 73;72;68;82; 0;0;0;1; 0;0;0;1; 8;0;0;0;0; 58;126;155;85;
+   0;0;0;3; 73;68;65;84; 7;9;0; 0;0;0;0;  0;0;0;0; 73;69;78;68; 174;66;96;130]%Z.
+Definition c05_demo_run (pieces : list (list Z)) :=
+  snd (feed (fun _ => toy_inf) (fun _ => None) (fun _ => true) (init_state (mk_opts true true false false true) 1000) pieces).
+Example C05_demo_whole_ends_at_iend : c05_demo_run [c05_demo_bytes] = RImageEnd 0%nat.
+Proof. vm_compute. reflexivity. Qed.
+Example C05_demo_prefix_ends_for_lack_of_input : c05_demo_run [firstn 30 c05_demo_bytes] = REof.
+Proof. vm_compute. reflexivity. Qed.
+Example C05_demo_resumed : c05_demo_run [firstn 30 c05_demo_bytes; firstn 7 (skipn 30 c05_demo_bytes); skipn 37 c05_demo_bytes] = RImageEnd 0%nat.
+Proof. vm_compute. reflexivity. Qed.
 Print Assumptions C05_row_call_out_of_input_changes_nothing.
 Print Assumptions C05_finish_is_resumable.
 Print Assumptions C05_frame_call_is_resumable.
 Print Assumptions C05_rows_visible_earlier_stay_visible.
+Print Assumptions C05_prefix_never_fails.
+Print Assumptions C05_resuming_completes_identically.
